@@ -142,7 +142,7 @@ fn stream_paths(sink: &mut Sink, rng: &mut Rng, args: &Args) {
             paths.push(s);
         }
     }
-    for _ in 0..args.vol(300, 6000) {
+    for _ in 0..args.vol(250, 4000) {
         let alphabet = ['a', 'b', '.', '`', '`', '.', 'é', '字', ' '];
         let n = rng.range(1, 10);
         paths.push((0..n).map(|_| *rng.pick(&alphabet)).collect());
@@ -197,7 +197,7 @@ fn stream_paths(sink: &mut Sink, rng: &mut Rng, args: &Args) {
             seglists.push(vec![a.clone(), b.clone()]);
         }
     }
-    for _ in 0..args.vol(200, 5000) {
+    for _ in 0..args.vol(150, 3000) {
         let n = rng.range(1, 4);
         seglists.push(
             (0..n)
@@ -237,7 +237,7 @@ fn stream_paths(sink: &mut Sink, rng: &mut Rng, args: &Args) {
 fn stream_lookup(sink: &mut Sink, rng: &mut Rng, args: &Args) {
     let mut sr = Stream::new("resolve", REQ, "chk_resolve", "schema * str", "option (list Z) * option Z");
     let mut sb = Stream::new("byid", REQ, "chk_byid", "schema * Z", "option str * option (list Z) * outcome str");
-    for _ in 0..args.vol(90, 2500) {
+    for _ in 0..args.vol(70, 900) {
         let g = Gen::sample(rng);
         let mut s = g.schema(rng);
         let mode = pick_id_mode(rng);
@@ -373,7 +373,7 @@ fn stream_project(sink: &mut Sink, rng: &mut Rng, args: &Args) {
         fixed.push((s2.clone(), vec!["`s.x`".into()], true));
         fixed.push((s2, vec!["s.x".into()], true));
     }
-    let n_rand = args.vol(330, 9000);
+    let n_rand = args.vol(240, 3000);
     for k in 0..(fixed.len() + n_rand) {
         let (s, cols, eom) = if k < fixed.len() {
             fixed[k].clone()
@@ -420,7 +420,7 @@ fn stream_project(sink: &mut Sink, rng: &mut Rng, args: &Args) {
 
 fn stream_project_by_ids(sink: &mut Sink, rng: &mut Rng, args: &Args) {
     let mut sp = Stream::new("pbi", REQ, "chk_project_by_ids", "schema * list Z * bool", "schema");
-    for _ in 0..args.vol(330, 9000) {
+    for _ in 0..args.vol(240, 3000) {
         let g = Gen::sample(rng);
         let mut s = g.schema(rng);
         let mode = pick_id_mode(rng);
@@ -532,7 +532,7 @@ fn related_schema(rng: &mut Rng, s: &[MF], g: &Gen) -> MS {
 
 fn stream_exclude(sink: &mut Sink, rng: &mut Rng, args: &Args) {
     let mut se = Stream::new("exclude", REQ, "chk_exclude", "schema * schema", "outcome schema");
-    for _ in 0..args.vol(330, 9000) {
+    for _ in 0..args.vol(240, 3000) {
         let (s, g) = gen_schema(rng);
         let o = related_schema(rng, &s, &g);
         let ls = to_lance_schema(&s);
@@ -574,7 +574,7 @@ fn stream_exclude(sink: &mut Sink, rng: &mut Rng, args: &Args) {
 
 fn stream_intersection(sink: &mut Sink, rng: &mut Rng, args: &Args) {
     let mut si = Stream::new("intersection", REQ, "chk_intersection", "schema * schema * bool", "outcome schema");
-    for _ in 0..args.vol(330, 9000) {
+    for _ in 0..args.vol(240, 3000) {
         let (s, g) = gen_schema(rng);
         let o = related_schema(rng, &s, &g);
         let ign = rng.chance(1, 3);
@@ -635,7 +635,7 @@ fn stream_intersection(sink: &mut Sink, rng: &mut Rng, args: &Args) {
 
 fn stream_merge(sink: &mut Sink, rng: &mut Rng, args: &Args) {
     let mut sm = Stream::new("merge", REQ, "chk_merge", "schema * schema * option Z", "outcome (schema * schema)");
-    for _ in 0..args.vol(330, 9000) {
+    for _ in 0..args.vol(240, 3000) {
         let (s, g) = gen_schema(rng);
         let o = related_schema(rng, &s, &g);
         let mx: Option<i32> = if rng.bool() { None } else { Some(rng.range(0, 30) as i32) };
@@ -675,7 +675,9 @@ fn stream_merge(sink: &mut Sink, rng: &mut Rng, args: &Args) {
                     // after set_field_id: ids unique and non-negative, old ids kept, everything else unchanged
                     let ids2 = all_ids(m2);
                     let p2 = path_map(m2);
-                    let ids_ok = unique_ids(m2)
+                    let ids_ok = union_ok
+                        && p2.len() == want.len()
+                        && unique_ids(m2)
                         && ids2.iter().all(|i| *i >= 0)
                         && want.iter().all(|(p, a)| {
                             let b = &p2[p];
@@ -717,7 +719,7 @@ fn arrow_of(s: &[MF]) -> ArrowSchema {
 fn stream_arrow(sink: &mut Sink, rng: &mut Rng, args: &Args) {
     let mut sa = Stream::new("arrow", REQ, "chk_of_arrow", "schema", "outcome (schema * list Z * option Z)");
     let mut sv = Stream::new("validate", REQ, "chk_validate", "schema", "outcome unit");
-    for k in 0..args.vol(250, 6000) {
+    for k in 0..args.vol(180, 2500) {
         let g = Gen::sample(rng);
         let mut s = if k == 0 { vec![] } else { g.schema(rng) };
         // an Arrow schema carries no ids
@@ -884,7 +886,7 @@ fn sys_mf(name: &str) -> MF {
 
 fn stream_projection(sink: &mut Sink, rng: &mut Rng, args: &Args) {
     let mut sp = Stream::new("projection", REQ, "chk_projection", "schema * list pop", "outcome (projection * outcome schema)");
-    for _ in 0..args.vol(330, 9000) {
+    for _ in 0..args.vol(240, 3000) {
         let g = Gen::sample(rng);
         let mut s = g.schema(rng);
         let mode = if rng.chance(5, 6) { if rng.bool() { IdMode::Fresh } else { IdMode::Sparse } } else { IdMode::Dups };
@@ -1070,7 +1072,7 @@ fn mk_pb(p: &PbObs) -> pb::Field {
 fn stream_pb(sink: &mut Sink, rng: &mut Rng, args: &Args) {
     let mut st = Stream::new("to_fields", REQ, "chk_to_fields", "schema", "list pbfield");
     let mut so = Stream::new("of_fields", REQ, "chk_of_fields", "list pbfield", "outcome schema");
-    for _ in 0..args.vol(300, 8000) {
+    for _ in 0..args.vol(220, 3000) {
         let g = Gen::sample(rng);
         let mut s = g.schema(rng);
         let mode = pick_id_mode(rng);
